@@ -964,6 +964,14 @@ pub fn variant_voice(t: &mut Tape, base: &VoiceSpec) -> VoiceSpec {
             }
         }
         let len = m.pdf_len;
+        // the order in which a file lists its trees is its own business too: this voice may list
+        // the state trees (with their PDF blocks) in another order than the base voice
+        if m.trees.len() >= 2 && t.chance(0.3) {
+            for i in (1..m.trees.len()).rev() {
+                let j = t.below(i + 1);
+                m.trees.swap(i, j);
+            }
+        }
         for tree in m.trees.iter_mut() {
             for n in tree.nodes.iter_mut() {
                 if nq > 0 && t.chance(0.5) {
